@@ -52,13 +52,21 @@ func genVal(t *rapid.T, ty m.Ty, label string) interface{} {
 	case m.TStr:
 		return rapid.SampledFrom(strPool).Draw(t, label)
 	case m.TIntList:
-		l := rapid.SliceOfN(rapid.Int64Range(-3, 6), 0, 5).Draw(t, label)
+		hi := 5
+		if rapid.IntRange(0, 11).Draw(t, label+"_long") == 0 { // now and then a list beyond any small-size special case
+			hi = 40
+		}
+		l := rapid.SliceOfN(rapid.Int64Range(-3, 6), 0, hi).Draw(t, label)
 		if l == nil {
 			l = []int64{}
 		}
 		return l
 	case m.TStrList:
-		l := rapid.SliceOfN(rapid.SampledFrom(strElemPool), 0, 5).Draw(t, label)
+		hi := 5
+		if rapid.IntRange(0, 11).Draw(t, label+"_long") == 0 {
+			hi = 40
+		}
+		l := rapid.SliceOfN(rapid.SampledFrom(strElemPool), 0, hi).Draw(t, label)
 		if l == nil {
 			l = []string{}
 		}
